@@ -2,6 +2,7 @@
 from ..rules import routing as Rt
 from ..rules import liveness as L
 from ..rules import scenario as SC
+from ..rules import pickling as P
 
 EXPLANATION = (
     "Static analysis. Decides: the work id is allocated from a counter that only ever grows by one, under the shutdown "
@@ -13,7 +14,8 @@ EXPLANATION = (
     "consuming get, no re-queueing, no retry loop in the worker (R-ONCE); the shape of the three pure functions behind map() "
     "(chunker: consecutive islices of one zip iterator until the first empty one; chunk runner: one fn(*args) per element, "
     "in order, none filtered; chain: every element of every chunk result in order) and of their composition in map(), with "
-    "the accepted idioms enumerated and anything else refused (R-MAP-SHAPE). NOT decided (runtime values): value equality "
+    "the accepted idioms enumerated and anything else refused (R-MAP-SHAPE); a callable passed through wrap_non_picklable_objects "
+    "is rebuilt from its own pickled object, under every protocol (R-WRAP-FIELDS, R-WRAP-REDUCE). NOT decided (runtime values): value equality "
     "of map() with builtin map as such, execution counts under respawn."
 )
 
@@ -25,5 +27,7 @@ def run(e, R, tier):
         L.r_drop_resolves,
         SC.r_scn_result,
         Rt.r_map_shape,
+        P.r_wrap_fields,
+        P.r_wrap_reduce,
     ])
     R.trust("Future.set_running_or_notify_cancel returns False iff the future was cancelled; Executor.map submits one call per element of zip(*iterables)")
